@@ -13,7 +13,7 @@ func init() { workloads["C12"] = c12 }
 
 // C12 — thesaurus lookups return exactly the defined synonyms.
 func c12(c *Ctx) {
-	n := c.N(2000, 30000)
+	n := c.N(2000, 120000)
 	for i := 0; i < n; i++ {
 		if !c.Mine(i) {
 			continue
